@@ -417,7 +417,7 @@ func main() {
 	s := &state{r: r, tools: tools, famPrograms: map[string]int64{}, famCompared: map[string]int64{}, constructs: map[string]int64{},
 		statuses: map[string]int64{}, crashKinds: map[string]int64{}, cfgCompared: map[string]int64{}, sampleFam: map[string]int{}, compileSec: map[string]float64{}, gccKinds: map[string]bool{}}
 	cfg := cdrive.WalkConfig{Tier: r.Tier, BatchSize: 96,
-		Families: []string{"extras", "loops", "calls", "io", "coro", "seeds", "index", "arith", "refine", "facts"},
+		Families: []string{"extras", "loops", "calls", "io", "coro", "seeds", "arith", "index", "refine", "facts"},
 		Extra:    map[string]progen.Family{"extras": extras()},
 		MaxLevel: map[string]int{},
 	}
@@ -441,7 +441,7 @@ func main() {
 		// the quick grammars, the thorough grammars of the families that are about
 		// cgen's lowering (loops, calls, arith), then - as far as the budget goes -
 		// the thorough io / coro grammars (coroutines are C05's main course).
-		cfg.Families = []string{"extras", "loops", "calls", "seeds", "io@quick", "coro@quick", "index@quick", "arith@quick", "refine@quick", "facts@quick",
+		cfg.Families = []string{"extras", "loops", "calls", "seeds", "io@quick", "coro@quick", "arith@quick", "index@quick", "refine@quick", "facts@quick",
 			"arith", "io", "coro", "index"}
 		cfg.MaxLevel["facts@quick"], cfg.MaxLevel["refine@quick"] = 2, 3
 	} else {
